@@ -146,3 +146,10 @@ Definition judge (c : ccase) : N :=
                  || match i_conv c with Some 0 => false | _ => true end
                  || match i_trace_load c ++ i_trace_conv c with [] => false | _ => true end in
   bits agree spec dom nontriv.
+
+(* what the model computes for a case (shown by ./check C16 --replay) *)
+Definition model_view (c : ccase) :=
+  let E := env_of c in
+  let lr := if N.eqb (c_entry c) 3 then load_resolver E (c_doc c) (c_src c)
+            else load_yaml E (c_doc c) (c_args c) (if N.eqb (c_entry c) 2 then Some (c_src c) else None) in
+  (fst lr, snd lr, match fst lr with Ok t => Some (convert E t (c_phs c)) | _ => None end).
